@@ -3,6 +3,7 @@ package checkers
 import (
 	"go/ast"
 	"go/token"
+	"go/types"
 
 	"github.com/go-critic/go-critic/checkers/internal/astwalk"
 	"github.com/go-critic/go-critic/linter"
@@ -55,7 +56,7 @@ func (c *nilValReturnChecker) VisitStmt(stmt ast.Stmt) {
 	}
 	xIsNil := expr.Op == token.EQL &&
 		typep.SideEffectFree(c.ctx.TypesInfo, expr.X) &&
-		qualifiedName(expr.Y) == "nil"
+		c.isPredeclaredNil(expr.Y)
 	if !xIsNil {
 		return
 	}
@@ -65,6 +66,17 @@ func (c *nilValReturnChecker) VisitStmt(stmt ast.Stmt) {
 			break
 		}
 	}
+}
+
+// isPredeclaredNil reports whether x is the identifier nil and
+// denotes the predeclared nil, not a user declaration that shadows it.
+func (c *nilValReturnChecker) isPredeclaredNil(x ast.Expr) bool {
+	id, ok := x.(*ast.Ident)
+	if !ok || id.Name != "nil" {
+		return false
+	}
+	_, ok = c.ctx.TypesInfo.ObjectOf(id).(*types.Nil)
+	return ok
 }
 
 func (c *nilValReturnChecker) warn(cause, val ast.Node) {
